@@ -24,6 +24,7 @@ import (
 	networking "k8s.io/api/networking/v1"
 	"k8s.io/apimachinery/pkg/util/intstr"
 	"sigs.k8s.io/controller-runtime/pkg/client"
+	gatewayv1 "sigs.k8s.io/gateway-api/apis/v1"
 
 	ingconv "github.com/jcmoraisjr/haproxy-ingress/pkg/converters/ingress"
 	convtypes "github.com/jcmoraisjr/haproxy-ingress/pkg/converters/types"
@@ -404,6 +405,167 @@ func unskippedPathCause(h [][]pipeline.Change, diff []string) bool {
 	return false
 }
 
+// ---- orchestration (Model/ConvOrch.v): Gateway API objects next to the ingresses ----
+var gwHostPool = []string{"g1.gw.example", "g2.gw.example"}
+
+func coqHostrec(host *hatypes.Host, defHash string) string {
+	var paths []string
+	for _, hp := range host.Paths {
+		paths = append(paths, fmt.Sprintf("{| hp_path := %s; hp_type := %s; hp_back := %s |}", hx.Str(hp.Path()), coqMatch(hp.Match()), hx.Str(hp.Backend.ID)))
+	}
+	tls := "None"
+	if host.TLS.TLSHash != "" {
+		hash := host.TLS.TLSHash
+		if hash == defHash {
+			hash = "DEFAULT"
+		}
+		tls = "(Some " + hx.Str(hash) + ")"
+	}
+	return fmt.Sprintf("{| h_paths := %s; h_tls := %s |}", hx.List(paths), tls)
+}
+
+// coqGout prints what the gateway converter builds for the current cluster, read from a
+// fresh controller (q), and the references it tracks, read from the gateway objects.
+func coqGout(p, q *pipeline.Pipeline) string {
+	hosts := q.Config().Hosts().Items()
+	backs := q.Config().Backends().Items()
+	var gh, gb, refs []string
+	seenB := map[string]bool{}
+	for _, h := range gwHostPool {
+		host, found := hosts[h]
+		if !found {
+			continue
+		}
+		gh = append(gh, hx.Tuple(hx.Str(h), coqHostrec(host, q.FakeCrt.SHA1Hash)))
+		for _, hp := range host.Paths {
+			if b := backs[hp.Backend.ID]; b != nil && !seenB[b.ID] {
+				seenB[b.ID] = true
+				var srv []string
+				for _, ep := range b.Endpoints {
+					if ep.IsEmpty() || !ep.Enabled {
+						continue
+					}
+					srv = append(srv, hx.Tuple(hx.Str(ep.IP), hx.Z(int64(ep.Port))))
+				}
+				gb = append(gb, hx.Tuple(hx.Str(b.ID), "{| b_servers := "+hx.List(srv)+" |}"))
+			}
+		}
+	}
+	seenR := map[string]bool{}
+	addRef := func(kind, name string) {
+		k := hx.Tuple(kind, hx.Str(name))
+		if !seenR[k] {
+			seenR[k] = true
+			refs = append(refs, k)
+		}
+	}
+	objs := p.Objects()
+	sort.Slice(objs, func(i, j int) bool { return p.Key(objs[i]) < p.Key(objs[j]) })
+	for _, o := range objs {
+		switch x := o.(type) {
+		case *gatewayv1.HTTPRoute:
+			for _, r := range x.Spec.Rules {
+				for _, br := range r.BackendRefs {
+					addRef("KService", x.Namespace+"/"+string(br.Name))
+					addRef("KEndpoints", x.Namespace+"/"+string(br.Name))
+				}
+			}
+		case *gatewayv1.Gateway:
+			for _, l := range x.Spec.Listeners {
+				if l.TLS != nil {
+					for _, c := range l.TLS.CertificateRefs {
+						addRef("KSecret", x.Namespace+"/"+string(c.Name))
+					}
+				}
+			}
+		}
+	}
+	return fmt.Sprintf("{| og_hosts := %s; og_backs := %s; og_refs := %s |}", hx.List(gh), hx.List(gb), hx.List(refs))
+}
+
+// runOrch runs one history with gateway objects on the real pipeline and records, after
+// every reconciliation, the cluster, G's output for it, the batch and the hosts of both owners.
+func runOrch(h [][]pipeline.Change, res *hx.Result, cw *hx.CaseWriter, sample bool) {
+	dir := filepath.Join(workdir, "g")
+	os.RemoveAll(dir)
+	po := popts(dir+"/p", false)
+	po.HasGatewayV1 = true
+	p, err := pipeline.NewE(po)
+	if err != nil {
+		panic(err)
+	}
+	defer p.Close()
+	var steps []string
+	var jsteps []interface{}
+	fulls, partials := 0, 0
+	savedObs := obsHosts
+	obsHosts = append(append([]string{}, obsHosts...), gwHostPool...)
+	defer func() { obsHosts = savedObs }()
+	for bi, b := range h {
+		if err := p.Apply(b); err != nil {
+			res.Count("corrorch_skipped_apply_error")
+			return
+		}
+		if len(p.Last.Runs) == 0 || !inModel(p, false) {
+			res.Count("corrorch_skipped_outside_model")
+			return
+		}
+		q, err := p.Fresh(dir + "/q")
+		if err != nil {
+			res.Count("corrorch_skipped_fresh_error")
+			return
+		}
+		g := coqGout(p, q)
+		q.Close()
+		os.RemoveAll(dir + "/q")
+		obs, jobs := coqObs(p)
+		w := fmt.Sprintf("{| ow_base := %s; ow_g := %s |}", coqWorld(p, false), g)
+		// one batch may wake the controller twice (a full sync item and a plain one): every
+		// reconciliation is a step, the hosts are observed after the last one
+		for ri, run := range p.Last.Runs {
+			o := "[]"
+			if ri == len(p.Last.Runs)-1 {
+				o = obs
+			}
+			if bi == 0 && ri == 0 {
+				steps = append(steps, hx.Tuple("OFull "+w, o))
+				continue
+			}
+			lenientLinks = true // links of gateway kinds name objects, never the tracker node (Gateway, "gw")
+			bt, okb := coqBatch(run.Changed, false)
+			lenientLinks = false
+			if !okb {
+				res.Count("corrorch_skipped_link_kind")
+				return
+			}
+			full := "false"
+			if run.Changed.NeedFullSync {
+				full = "true"
+				fulls++
+			} else {
+				partials++
+			}
+			steps = append(steps, hx.Tuple(fmt.Sprintf("OStep %s {| ob_base := %s; ob_full := %s |}", w, bt, full), o))
+		}
+		run := p.Last.Runs[len(p.Last.Runs)-1]
+		jsteps = append(jsteps, map[string]interface{}{"changes": describe([][]pipeline.Change{b})[0], "full_requested": run.Changed.NeedFullSync, "observed": jobs})
+	}
+	if len(steps) == 0 {
+		return
+	}
+	res.Count(fmt.Sprintf("corrorch_steps=%d", len(steps)))
+	res.Count(fmt.Sprintf("corrorch_full_requested=%d", min(fulls, 3)))
+	canon, _ := json.Marshal(world.EncodeHistory(h))
+	res.Seen("corrorch:"+string(canon), partials > 0)
+	if sample {
+		res.Sample(5, map[string]interface{}{"corrorch_history": describe(h), "steps": jsteps})
+	}
+	st := steps
+	cw.Add(func(id int) string {
+		return fmt.Sprintf("CO {| oid := %s; osteps := %s |}", hx.N(id), hx.List(st))
+	}, map[string]interface{}{"history": world.EncodeHistory(h), "steps": jsteps})
+}
+
 type oracleInput struct {
 	History [][]world.ChangeJSON `json:"history"`
 	Wide    bool                 `json:"wide"`
@@ -539,6 +701,9 @@ var kindName = map[convtypes.ResourceType]string{
 	convtypes.ResourceService: "KService", convtypes.ResourceEndpoints: "KEndpoints", convtypes.ResourceSecret: "KSecret", convtypes.ResourcePod: "KPod",
 }
 
+// lenientLinks lets coqBatch drop the links of kinds the models do not have.
+var lenientLinks bool
+
 func coqBatch(ch *convtypes.ChangedObjects, db bool) (string, bool) {
 	pi := coqIngress
 	if db {
@@ -553,6 +718,9 @@ func coqBatch(ch *convtypes.ChangedObjects, db bool) (string, bool) {
 	for _, k := range kinds {
 		kn, ok := kindName[convtypes.ResourceType(k)]
 		if !ok {
+			if lenientLinks {
+				continue // gateway kinds: the batch asks for a full sync, which reads no link
+			}
 			return "", false
 		}
 		for _, n := range ch.Links[convtypes.ResourceType(k)] {
@@ -837,6 +1005,8 @@ func main() {
 		}
 		// Gateway API objects sharing services and secrets with the ingresses
 		cfg.Gateway = i%4 == 2
+		// TCP services: ingresses sharing a tcp-service-port with port-level settings
+		cfg.TCP = i%4 == 3
 		histories = append(histories, world.GenHistory(rng, cfg, 1+rng.Intn(5), 3))
 		isCorpus = append(isCorpus, false)
 	}
@@ -1006,7 +1176,7 @@ func main() {
 			res.Count("corrdb_known_finding_does_not_diverge")
 		}
 		runCorr(kh, true, true)
-		nDB := o.Count(20, 1000)
+		nDB := o.Count(16, 1000)
 		for i := 0; i < nDB; i++ {
 			cfg := modelConfig()
 			cfg.DefaultBackend = true
@@ -1024,13 +1194,24 @@ func main() {
 		runCorr(ka, false, true, true)
 		saved := world.AnnWhitelist
 		world.AnnWhitelist = annSubset
-		nAnn := o.Count(20, 1000)
+		nAnn := o.Count(16, 1000)
 		for i := 0; i < nAnn; i++ {
 			cfg := modelConfig()
 			cfg.Annotations = true
 			runCorr(world.GenHistory(rng, cfg, 1+rng.Intn(5), 3), false, i < 1, true)
 		}
 		world.AnnWhitelist = saved
+		// stream 4: Gateway API objects sharing Services and Secrets with the ingresses,
+		// against Model/ConvOrch.v (gateway hostnames disjoint from the ingress ones)
+		savedGH := world.GatewayHosts
+		world.GatewayHosts = gwHostPool
+		nOrch := o.Count(10, 600)
+		for i := 0; i < nOrch; i++ {
+			cfg := modelConfig()
+			cfg.Gateway = true
+			runOrch(world.GenHistory(rng, cfg, 1+rng.Intn(4), 3), res, cw, i < 1)
+		}
+		world.GatewayHosts = savedGH
 	}
 	// ---- the tracker alone ----
 	if o.Replay == "" {
